@@ -503,6 +503,7 @@ def make_emitter(kind, archive, cfg, **over):
                                                     "ranker": cfg.get("ranker", "2imp"), **over})
     if kind == "gae":
         return GradientArborescenceEmitter(archive, **{"x0": x0, "sigma0": 0.5, "lr": 0.25, "batch_size": 4, "seed": 7,
+                                                       "es": cfg.get("es", "cma_es"), "ranker": cfg.get("ranker", "2imp"),
                                                        "grad_opt": cfg.get("grad_opt", "adam"),
                                                        "normalize_grad": bool(cfg.get("normalize", 1)), **over})
     if kind == "goe":
